@@ -244,7 +244,7 @@ fn main() {
         let mut def = CheckDef::new(
             "C04",
             "exploration",
-            "every stack program = (CPU x OS variant, per-frame (technique, frame size), style) is laid out with its ground truth (memory, registers, modules, symbol text, expected chain), walked by the real walk_stack and compared frame by frame: return address / resume_address, context ip, instruction = ra - adj, sp, trust, tracked callee-saved registers (frame pointer + two more: value and validity), module, function name, and the walk must stop at the generated end. Space 'mix': the full product of techniques x sizes over all frames for every depth <= bound x 8 styles; space 'uniform': one technique for the whole chain at every listed depth up to 64 (both at placement 0: low addresses, module list in address order). Space 'placement': every other entry of the placement menu (module and stack addresses up to the top of the architecture's user address space, 48-bit on ARM64; a bystander module; module list in descending / rotated instead of address order) x the full product up to the placement depth bound and one-technique chains at the placement depths x 8 styles, over all variants including the ARM64 Android / Linux ones that are not part of 'mix'. distinct_nontrivial = distinct well-formed programs walked (programs the generator rejects as not well-formed for the variant are counted separately and not walked).",
+            "every stack program = (CPU x OS variant, per-frame (technique, frame size), style) is laid out with its ground truth (memory, registers, modules, symbol text, expected chain), walked by the real walk_stack and compared frame by frame: return address / resume_address, context ip, instruction = ra - adj, sp, trust, tracked callee-saved registers (frame pointer + two more: value and validity), module, function name, and the walk must stop at the generated end. Space 'mix': the full product of techniques x sizes over all frames for every depth <= bound x 8 styles; space 'uniform': one technique for the whole chain at every listed depth up to 64 (both at placement 0: low addresses, module list in address order). Space 'placement': every other entry of the placement menu (module and stack addresses up to the top of the architecture's user address space, 48-bit on ARM64; bystander modules; module list in descending / rotated instead of address order) x the full product up to the placement depth bound and one-technique chains at the placement depths x 8 styles, over all variants including the ARM64 Android / Linux ones that are not part of 'mix'. distinct_nontrivial = distinct well-formed programs walked (programs the generator rejects as not well-formed for the variant are counted separately and not walked).",
         );
         def.assumptions = vec![
             "the generator is the specification: it encodes the walker conventions of DESIGN Appendix A (technique priority, scan windows, MIPS32 4-word skip, amd64/Windows slack, leaf first frame, iOS-only ARM frame pointers, pointer-auth stripping (mask = all bits up to the highest bit of max(2^47 - 1, end of the highest-addressed module), whatever the order of the module list), STACK WIN layouts as documented in walker.rs)".into(),
@@ -253,7 +253,7 @@ fn main() {
             "tracked registers: frame pointer and two callee-saved registers per architecture (ebx/esi, rbx/r12, r4/r5, x19/x20, s0/s1); other registers are not compared".into(),
             "all words of a frame that are not a return address are zeros, small constants or stack addresses; the context is fully valid; one thread; little-endian memory".into(),
             "styles: 8 fixed combinations of saved-register subsets, split CFI records, slack 0..240 bytes, STACK WIN parameter bytes, numeric register spellings, pointer-auth bits, one or two modules".into(),
-            "placements: 4 fixed layouts per architecture (stackgen::placement_of): low; low + a bystander module below, list descending; top of the user address space (x86/ARM 0xf000_0000 with the stack at 0xff00_0000, MIPS32 below 2^31, amd64 canonical 0x7ff8_0000_0000, ARM64 0xffff_8000_0000 with the stack at 0xffff_f000_0000, MIPS64 40-bit); main module low with the second module, a bystander and the stack at the top, list rotated so that the lowest module is named last. Modules never overlap each other or the stack; the bystander has no symbols and no stack word points into it; on ARM64 every true address fits under the documented strip mask and the pointer-auth bits (bits 48..55) lie above it".into(),
+            "placements: 4 fixed layouts per architecture (stackgen::placement_of): low; low + a bystander module below, list descending; top of the user address space (x86/ARM 0xf000_0000 with the stack at 0xff00_0000, MIPS32 below 2^31, amd64 canonical 0x7ff8_0000_0000, ARM64 0xffff_8000_0000 with the stack at 0xffff_f000_0000, MIPS64 40-bit); main module low with a bystander next to it and the second module, another bystander and the stack at the top, list rotated so that the lowest module is named last and the highest is neither first nor last. Modules never overlap each other or the stack; bystanders have no symbols and no stack word points into them; on ARM64 every true address fits under the documented strip mask and the pointer-auth bits (bits 48..55) lie above it".into(),
         ];
         def.extra.insert("depth_bound_mix".into(), json!(max_depth));
         def.extra.insert("sizes_per_frame".into(), json!(nsizes));
